@@ -364,6 +364,7 @@ def main():
     results = core.run_jobs(js)
     rep.add_results(results)
     core.triage(rep, results, info)
+    if not only: rep.validate_stage_translation()
     return rep.finish('proof', 'goto-cc | cbmc --unwind 2L+3 --unwinding-assertions ' + ' '.join(FLAGS) + ' (assume-pre / assert-post harness per operation over the abstract byte view; std::copy stubbed by an addressing check)', core.TRUSTED_BASE)
 
 if __name__ == '__main__':
